@@ -18,6 +18,7 @@ import (
 	"time"
 
 	"github.com/caddyserver/caddy/v2"
+	_ "github.com/caddyserver/caddy/v2/modules/caddyhttp"
 	_ "github.com/caddyserver/caddy/v2/modules/caddypki"
 	_ "github.com/caddyserver/caddy/v2/modules/caddytls"
 )
@@ -91,16 +92,27 @@ func TestVerifFullStack(t *testing.T) {
 	tmp, _ := net.Listen("tcp", "127.0.0.1:0")
 	addr := tmp.Addr().String()
 	tmp.Close()
+	tmp2, _ := net.Listen("tcp", "127.0.0.1:0")
+	httpAddr := tmp2.Addr().String()
+	tmp2.Close()
+	tmpu, _ := net.ListenPacket("udp", "127.0.0.1:0")
+	udpAddr := tmpu.LocalAddr().String()
+	tmpu.Close()
 	cfg := fmt.Sprintf(`{"admin":{"disabled":true},"logging":{"logs":{"default":{"level":"ERROR"}}},
 	 "apps":{"pki":{"certificate_authorities":{"local":{"install_trust":false}}},
 	  "tls":{"certificates":{"automate":["localhost"]},"automation":{"policies":[{"subjects":["localhost"],"issuers":[{"module":"internal"}]}]}},
-	  "layer4":{"servers":{"s":{"listen":["%s"],"routes":[
+	  "http":{"servers":{"web":{"listen":["%s"],"automatic_https":{"disable":true},
+	    "listener_wrappers":[{"wrapper":"layer4","routes":[
+	      {"match":[{"tls":{}}],"handle":[{"handler":"tls"}]},
+	      {"match":[{"regexp":{"pattern":"^RAW","count":3}}],"handle":[{"handler":"echo"}]}]}],
+	    "routes":[{"handle":[{"handler":"static_response","body":"hello from the wrapped http server"}]}]}}},
+	  "layer4":{"servers":{"u":{"listen":["udp/%s"],"routes":[{"handle":[{"handler":"echo"}]}]},"s":{"listen":["%s"],"routes":[
 	    {"match":[{"tls":{"sni":["localhost"]}}],"handle":[{"handler":"tls"},{"handler":"subroute","routes":[
 	        {"match":[{"regexp":{"pattern":"^S","count":1}}],"handle":[{"handler":"proxy","upstreams":[{"dial":["%s"]}]}]},
 	        {"handle":[{"handler":"proxy","upstreams":[{"dial":["%s"]}]}]}]}]},
 	    {"match":[{"regexp":{"pattern":"^S","count":1}}],"handle":[{"handler":"proxy","upstreams":[{"dial":["%s"]}]}]},
 	    {"handle":[{"handler":"proxy","upstreams":[{"dial":["%s"]}]}]}]}}}}}`,
-		addr, streaming.ln.Addr(), after.ln.Addr(), streaming.ln.Addr(), after.ln.Addr())
+		httpAddr, udpAddr, addr, streaming.ln.Addr(), after.ln.Addr(), streaming.ln.Addr(), after.ln.Addr())
 	if err := caddy.Load([]byte(cfg), true); err != nil {
 		t.Fatalf("caddy.Load: %v", err)
 	}
@@ -235,5 +247,93 @@ func TestVerifFullStack(t *testing.T) {
 		out.out.Flush()
 		out.orc.Flush()
 	}
+	// ---- listener wrapper in front of a real HTTP server (C13): TLS terminated by layer4 and handed over with its connection
+	// state, plaintext HTTP handed over untouched, RAW connections consumed by layer4 and never delivered
+	hidx := n
+	fmt.Fprintf(out.cases, "fullstack listener-wrapper\n")
+	var hw sync.WaitGroup
+	var hmu sync.Mutex
+	hfail := func(sig, desc string) { hmu.Lock(); out.fail(hidx, sig, desc); hmu.Unlock() }
+	const want = "hello from the wrapped http server"
+	for k := 0; k < 24; k++ {
+		kind := k % 3
+		hw.Add(1)
+		go func(k int) {
+			defer hw.Done()
+			var c net.Conn
+			var err error
+			if kind == 0 {
+				c, err = tls.Dial("tcp", httpAddr, &tls.Config{ServerName: "localhost", InsecureSkipVerify: true, NextProtos: []string{"http/1.1"}})
+			} else {
+				c, err = net.Dial("tcp", httpAddr)
+			}
+			if err != nil {
+				hfail("wrapper-handoff", fmt.Sprintf("client %d (kind %d) cannot connect: %v", k, kind, err))
+				return
+			}
+			defer c.Close()
+			_ = c.SetDeadline(time.Now().Add(10 * time.Second))
+			if kind == 2 {
+				msg := []byte(fmt.Sprintf("RAW%06d-payload", k))
+				_, _ = c.Write(msg)
+				got := make([]byte, len(msg))
+				if _, err := io.ReadFull(c, got); err != nil || !bytes.Equal(got, msg) {
+					hfail("wrapper-consumed", fmt.Sprintf("RAW client %d: echo by the layer4 route failed: got %q err %v", k, got, err))
+				}
+				return
+			}
+			req := fmt.Sprintf("GET /%d HTTP/1.1\r\nHost: localhost\r\nConnection: close\r\n\r\n", k)
+			// the request arrives in two pieces: the first is prefetched by layer4 for matching, the rest is read by the http server
+			_, _ = c.Write([]byte(req[:7]))
+			time.Sleep(time.Duration(k%4) * time.Millisecond)
+			_, _ = c.Write([]byte(req[7:]))
+			resp, err := io.ReadAll(c)
+			if err != nil || !bytes.Contains(resp, []byte(want)) || !bytes.HasPrefix(resp, []byte("HTTP/1.1 200")) {
+				hfail("wrapper-handoff", fmt.Sprintf("http client %d (tls=%v): the wrapped server did not answer the request handed over by layer4: %q err %v", k, kind == 0, clipb(resp), err))
+			}
+		}(k)
+	}
+	hw.Wait()
+	fmt.Fprintln(out.out, "listener-wrapper done")
+	stats["wrapper-clients"] = 24
+
+	// ---- UDP server (C09): every client gets back exactly its own datagrams, in order
+	uidx := n + 1
+	fmt.Fprintf(out.cases, "fullstack udp\n")
+	var uw sync.WaitGroup
+	for k := 0; k < 6; k++ {
+		uw.Add(1)
+		go func(k int) {
+			defer uw.Done()
+			c, err := net.Dial("udp", udpAddr)
+			if err != nil {
+				return
+			}
+			defer c.Close()
+			buf := make([]byte, 2048)
+			for j := 0; j < 30; j++ {
+				msg := []byte(fmt.Sprintf("u%02d-%03d-%s", k, j, bytes.Repeat([]byte{'x'}, j*7%200)))
+				_, _ = c.Write(msg)
+				_ = c.SetReadDeadline(time.Now().Add(3 * time.Second))
+				nr, err := c.Read(buf)
+				if err != nil || !bytes.Equal(buf[:nr], msg) {
+					hmu.Lock()
+					out.fail(uidx, "udp-echo", fmt.Sprintf("udp client %d datagram %d: got %q err %v, sent %q", k, j, clipb(buf[:nr]), err, clipb(msg)))
+					hmu.Unlock()
+					return
+				}
+			}
+		}(k)
+	}
+	uw.Wait()
+	fmt.Fprintln(out.out, "udp done")
+	stats["udp-datagrams"] = 180
 	out.stats(stats)
+}
+
+func clipb(b []byte) []byte {
+	if len(b) > 80 {
+		return b[:80]
+	}
+	return b
 }
